@@ -399,4 +399,181 @@ theorem pwrite_good (content f c : Bytes) (N off : Nat) (hN : N ≤ content.leng
     congr 1
     rw [← hc]
 
+def NotRunning : W → Prop
+  | .running _ _ => False
+  | _ => True
+
+/-- invariant of any interleaving of good writers: either (A) the file was complete from the start and nobody
+    ever opens it, or (B) it is a correct prefix of `content` plus leftovers and every running writer's next
+    write lies inside (or right at the end of) that prefix -/
+def ConcInv (hash : Bytes → Digest) (d : Digest) (content : Bytes) (s : Sys) : Prop :=
+  (∃ g, s.file = some g ∧ g.length = content.length ∧ hash g = d ∧ ∀ w ∈ s.ws, NotRunning w) ∨
+  (∃ N, N ≤ content.length ∧ FileB content s.file N ∧ ∀ w ∈ s.ws, WOK content s.file N w)
+
+theorem concInv_trusted (hash : Bytes → Digest) (d : Digest) (content : Bytes) (hh : hash content = d)
+    (s : Sys) (h : ConcInv hash d content s) : Trusted hash s.file d content.length := by
+  rcases h with ⟨g, hf, hl, hg, _⟩ | ⟨N, hN, hf, _⟩
+  · intro f hf' _ _; rw [hf] at hf'; cases hf'; exact hg
+  · intro f hf' _ hlen
+    rw [hf'] at hf
+    obtain ⟨rest, rfl, _, hr2⟩ := hf
+    have htl : (content.take N).length = N := by simp; omega
+    have hN' : N = content.length := hr2 (by simp only [List.length_append, htl] at hlen; exact hlen)
+    have : rest = [] := List.eq_nil_of_length_eq_zero (by
+      simp only [List.length_append, htl] at hlen; omega)
+    subst this
+    rw [hN', List.take_length, List.append_nil]; exact hh
+
+theorem wtear_cases (k : Nat) (w : W) (f : FileSt) :
+    wtear k w f = (.dead, f) ∨
+    ∃ off bs rest r, w = .running (.pwrite off bs :: rest) r ∧
+      wtear k w f = (.dead, applyEff (.pwrite off (bs.take k)) f) := by
+  cases w with
+  | running es r =>
+    cases es with
+    | nil => exact Or.inl rfl
+    | cons e es =>
+      cases e with
+      | pwrite off bs => exact Or.inr ⟨off, bs, es, r, rfl, rfl⟩
+      | _ => exact Or.inl rfl
+  | _ => exact Or.inl rfl
+
+theorem set_all {α} (P : α → Prop) (l : List α) (i : Nat) (a : α) (hl : ∀ x ∈ l, P x) (ha : P a) :
+    ∀ x ∈ l.set i a, P x := by
+  intro x hx
+  rcases List.mem_or_eq_of_mem_set hx with h | h
+  · exact hl x h
+  · rw [h]; exact ha
+
+theorem execEv_inv (hash : Bytes → Digest) (d : Digest) (content : Bytes) (hh : hash content = d)
+    (hsz : content.length ≠ 0) (s : Sys) (ev : Ev) (h : ConcInv hash d content s) :
+    ConcInv hash d content (execEv hash d content.length s ev) := by
+  cases ev with
+  | step i =>
+    simp only [execEv]
+    cases hi : s.ws[i]? with
+    | none => exact h
+    | some w =>
+      have hw : w ∈ s.ws := List.mem_of_getElem? hi
+      simp only
+      rcases h with ⟨g, hf, hl, hg, hnr⟩ | ⟨N, hN, hf, hws⟩
+      · -- (A)
+        left
+        cases w with
+        | init sc =>
+          have : wstep hash d content.length (.init sc) s.file = (.done .ok, s.file) := by
+            simp [wstep, hf, hl]
+          rw [this]
+          exact ⟨g, hf, hl, hg, set_all _ _ _ _ hnr trivial⟩
+        | running es r => exact absurd (hnr _ hw) (by simp [NotRunning])
+        | done r => exact ⟨g, hf, hl, hg, set_all _ _ _ _ hnr trivial⟩
+        | dead => exact ⟨g, hf, hl, hg, set_all _ _ _ _ hnr trivial⟩
+      · -- (B)
+        right
+        have hwok := hws w hw
+        cases w with
+        | init sc =>
+          simp only [wstep]
+          split
+          · exact ⟨N, hN, hf, set_all _ _ _ _ hws trivial⟩
+          · have htr : statTrunc s.file content.length = false := by
+              cases hfile : s.file with
+              | none => rfl
+              | some f =>
+                rw [hfile] at hf
+                obtain ⟨rest, rfl, hr1, _⟩ := hf
+                have htl : (content.take N).length = N := by simp; omega
+                simp only [statTrunc, List.length_append, htl, decide_eq_false_iff_not]; omega
+            obtain ⟨es', hes, hgw⟩ := afterStat_good hash d content hh hsz false sc hwok
+            rw [htr, hes]
+            exact ⟨N, hN, hf, set_all _ _ _ _ hws (Or.inl ⟨es', rfl, hgw⟩)⟩
+        | running es r =>
+          cases es with
+          | nil => exact ⟨N, hN, hf, set_all _ _ _ _ hws trivial⟩
+          | cons e es =>
+            simp only [wstep]
+            rcases hwok with ⟨es', he, hgw⟩ | ⟨hne, off, ho, hgw⟩ | he
+            · -- the open
+              simp only [List.cons.injEq] at he
+              obtain ⟨rfl, rfl⟩ := he
+              cases hfile : s.file with
+              | none =>
+                rw [hfile] at hf hws
+                have hN0 : N = 0 := hf
+                subst hN0
+                refine ⟨0, hN, ⟨[], by simp, by simp, by simp⟩, ?_⟩
+                apply set_all
+                · intro x hx; exact WOK_mono content none _ 0 0 x (by simp) (Nat.le_refl _) (hws x hx)
+                · exact Or.inr (Or.inl ⟨by simp [applyEff], 0, Nat.le_refl _, hgw⟩)
+              | some f =>
+                rw [hfile] at hf hws
+                refine ⟨N, hN, hf, ?_⟩
+                apply set_all _ _ _ _ hws
+                exact Or.inr (Or.inl ⟨by simp [applyEff], 0, Nat.zero_le _, hgw⟩)
+            · -- a write or the close
+              cases hfile : s.file with
+              | none => exact absurd hfile hne
+              | some f =>
+                rw [hfile] at hf hws
+                cases hgw with
+                | fin =>
+                  refine ⟨N, hN, hf, ?_⟩
+                  apply set_all _ _ _ _ hws
+                  exact Or.inr (Or.inr rfl)
+                | write _ c rest hc hl hrest =>
+                  refine ⟨max N (off + c.length), by omega, ?_, ?_⟩
+                  · exact pwrite_good content f c N off hN hf ho hc hl
+                  · apply set_all
+                    · intro x hx
+                      exact WOK_mono content (some f) _ N _ x (by simp [applyEff]) (by omega) (hws x hx)
+                    · exact Or.inr (Or.inl ⟨by simp [applyEff], off + c.length, by omega, hrest⟩)
+            · cases he
+        | done r => exact ⟨N, hN, hf, set_all _ _ _ _ hws trivial⟩
+        | dead => exact ⟨N, hN, hf, set_all _ _ _ _ hws trivial⟩
+  | tear i k =>
+    simp only [execEv]
+    cases hi : s.ws[i]? with
+    | none => exact h
+    | some w =>
+      have hw : w ∈ s.ws := List.mem_of_getElem? hi
+      simp only
+      rcases wtear_cases k w s.file with ht | ⟨off, bs, rest, r, rfl, ht⟩
+      · rw [ht]
+        rcases h with ⟨g, hf, hl, hg, hnr⟩ | ⟨N, hN, hf, hws⟩
+        · exact Or.inl ⟨g, hf, hl, hg, set_all _ _ _ _ hnr trivial⟩
+        · exact Or.inr ⟨N, hN, hf, set_all _ _ _ _ hws trivial⟩
+      · rw [ht]
+        rcases h with ⟨g, hf, hl, hg, hnr⟩ | ⟨N, hN, hf, hws⟩
+        · exact absurd (hnr _ hw) (by simp [NotRunning])
+        · right
+          rcases hws _ hw with ⟨es', he, _⟩ | ⟨hne, off', ho, hgw⟩ | he
+          · simp at he
+          · cases hfile : s.file with
+            | none => exact absurd hfile hne
+            | some f =>
+              rw [hfile] at hf hws
+              cases hgw with
+              | write _ _ _ hc hl hrest =>
+                have hc' : bs.take k = (content.drop off).take (bs.take k).length := by
+                  conv => lhs; rw [hc]
+                  rw [List.take_take, List.length_take]
+                have hl' : off + (bs.take k).length ≤ content.length := by
+                  rw [List.length_take]; omega
+                refine ⟨max N (off + (bs.take k).length), by omega, ?_, ?_⟩
+                · exact pwrite_good content f _ N off hN hf ho hc' hl'
+                · apply set_all
+                  · intro x hx
+                    exact WOK_mono content (some f) _ N _ x (by simp [applyEff]) (by omega) (hws x hx)
+                  · trivial
+          · cases he
+
+theorem exec_inv (hash : Bytes → Digest) (d : Digest) (content : Bytes) (hh : hash content = d)
+    (hsz : content.length ≠ 0) (evs : List Ev) : ∀ (s : Sys), ConcInv hash d content s →
+    ConcInv hash d content (exec hash d content.length evs s) := by
+  induction evs with
+  | nil => intro s h; exact h
+  | cons ev evs ih =>
+    intro s h
+    exact ih _ (execEv_inv hash d content hh hsz s ev h)
+
 end OllamaVerif.BlobCache
